@@ -50,7 +50,7 @@ def cterms(t):
 
 
 def cflags(fl):
-    return "(mk_flags %s %s %s)" % tuple(lib.cbool(b) for b in fl)
+    return "(mk_flags %s %s %s %s)" % tuple(lib.cbool(b) for b in fl)
 
 
 # ------------------------------------------------------------------------------------------------ the real objects -> a plain tree
@@ -216,7 +216,7 @@ def near_sql_of(ops, model):
 
 
 def probe_flags():
-    """which of the three proposed repairs the code under test contains (read off its behaviour on three tiny inputs)"""
+    """which of the four proposed repairs the code under test contains (read off its behaviour on three tiny inputs)"""
     import data_algebra.near_sql as ns
     from data_algebra.data_ops import TableDescription
     cache = {}
@@ -234,7 +234,12 @@ def probe_flags():
         skips = True
     except KeyError:
         skips = False
-    return (none_uncached, rekeys, skips)
+    # a UNION ALL operand ending in ORDER BY / LIMIT, nested form: written as a sub-select?
+    from data_algebra.sql_format_options import SQLFormatOptions
+    sql = m.to_sql(t.concat_rows(t.order_rows(["a"], limit=1), id_column=None),
+                   sql_format_options=SQLFormatOptions(use_with=False, annotate=False, warn_on_method_support=False, warn_on_novel_methods=False))
+    wraps = ') "order_rows_' in sql
+    return (none_uncached, rekeys, skips, wraps)
 
 
 INDENTS = (" ", "    ", "\t")
@@ -705,7 +710,8 @@ def without_native_outer_joins(s, memo=None):
 
 def ops_for(case, dialect):
     """the pipeline a dialect's variants are generated from"""
-    if dialect != "postgres" or not re.search(r'"jointype": "(RIGHT|FULL)"', json.dumps(pipes.to_json(case.script))):
+    # (since aad03d8 the SQLite dialect writes a native FULL JOIN too when the linked engine has one)
+    if not re.search(r'"jointype": "(RIGHT|FULL)"', json.dumps(pipes.to_json(case.script))):
         return case.ops
     if getattr(case, "_pg_ops", None) is None:
         case._pg_ops = build_script(without_native_outer_joins(case.script), case.tables)
@@ -1075,16 +1081,16 @@ def run(chk):
         "cache_sound_dec, which is evaluated in Coq on every real graph with reuse (evidence: cache_sound_decided); it was REFUTED for the keys of the code as found "
         "(repaired in /repo by efc7e6f and 0184359)",
         "merge theorem guards: declared dependencies describe each expression; the sub-query is asked for the columns the extend passes through or reads",
-        "code flags (which of the three proposed repairs are present) are read off the code's behaviour on three fixed tiny inputs at run time",
+        "code flags (which of the four proposed repairs are present) are read off the code's behaviour on three fixed tiny inputs at run time",
         "column and table names in generated pipelines are plain identifiers (py_list_repr models repr() for those)",
-        "oracle, PostgreSQL dialect: RIGHT / FULL joins of a pipeline are replaced by INNER / LEFT before the variants are generated (SQLite 3.40.1 runs the text; its native "
+        "oracle (both dialects; SQLite's own dialect writes native FULL JOIN since aad03d8): RIGHT / FULL joins of a pipeline are replaced by INNER / LEFT before the variants are generated (SQLite 3.40.1 runs the text; its native "
         "RIGHT / FULL JOIN was observed to lose a WHERE over a UNION ALL of FULL JOINs); the structural and text ties use the pipeline as generated"]
     chk.cov["rule"] = ("pipelines from harness/pipes.py (depth 1..4 quick / 1..6 thorough) and DAG shapes that reuse a sub-pipeline under different column demands: "
                        "join / concat of two narrowings of one prefix, a windowed extend followed by plain extends (merged at SQL level) shared with its own unmerged prefix, "
                        "a narrowed windowed extend under another extend, two pieces of user SQL with equal columns, record transforms (unpivot) alone / concatenated / joined; 2 tables, 1..6 rows; "
                        "2 dialects x merge on/off x 32 option combinations executed; non-trivial = a WITH list with >= 2 steps or a merged extend or CTE reuse; distinct by script+tables")
     flags = probe_flags()
-    chk.cov["code_flags"] = {"none_key_uncached": flags[0], "merge_rekeys": flags[1], "merge_skips_missing": flags[2]}
+    chk.cov["code_flags"] = {"none_key_uncached": flags[0], "merge_rekeys": flags[1], "merge_skips_missing": flags[2], "union_wraps_ordered": flags[3]}
     cases = []
     for f in sorted(glob.glob(os.path.join(lib.ROOT, "corpus", "C04", "*.json"))):
         try:
